@@ -1,0 +1,116 @@
+//go:build verif
+
+package main
+
+import (
+	"context"
+	"encoding/json"
+	"fmt"
+	"os"
+	"testing"
+
+	sqlmock "github.com/DATA-DOG/go-sqlmock"
+	api_pb "github.com/kubeflow/katib/pkg/apis/manager/v1beta1"
+	"github.com/kubeflow/katib/pkg/db/v1beta1/common"
+	"github.com/kubeflow/katib/pkg/db/v1beta1/mysql"
+	"github.com/kubeflow/katib/pkg/db/v1beta1/postgres"
+)
+
+// VerifCase is one request sent to the db-manager gRPC handlers by the verification harness.
+type VerifCase struct {
+	Dialect string                           `json:"dialect"` // mysql | postgres
+	Op      string                           `json:"op"`      // report | get | delete
+	Report  *api_pb.ReportObservationLogRequest `json:"report,omitempty"`
+	Get     *api_pb.GetObservationLogRequest    `json:"get,omitempty"`
+	Delete  *api_pb.DeleteObservationLogRequest `json:"delete,omitempty"`
+	// NilEntries lists indexes of Report.ObservationLog.MetricLogs to be replaced by nil pointers,
+	// NilMetric those whose Metric sub-message is dropped (JSON cannot express either).
+	NilEntries []int `json:"nil_entries,omitempty"`
+	NilMetric  []int `json:"nil_metric,omitempty"`
+}
+
+// VerifResult is what the handler did.
+type VerifResult struct {
+	Panic string `json:"panic,omitempty"`
+	Err   string `json:"err,omitempty"`
+	OK    bool   `json:"ok"`
+}
+
+// TestVerifDBManagerDriver replays the cases of $VERIF_DBM_IN through the real handlers of this
+// package (backed by the real mysql / postgres dbConn over go-sqlmock in permissive mode) and
+// writes one result per case to $VERIF_DBM_OUT. It is a no-op without the environment variables.
+func TestVerifDBManagerDriver(t *testing.T) {
+	in, out := os.Getenv("VERIF_DBM_IN"), os.Getenv("VERIF_DBM_OUT")
+	if in == "" || out == "" {
+		t.Skip("no VERIF_DBM_IN/VERIF_DBM_OUT")
+	}
+	raw, err := os.ReadFile(in)
+	if err != nil {
+		t.Fatal(err)
+	}
+	var cases []VerifCase
+	if err := json.Unmarshal(raw, &cases); err != nil {
+		t.Fatal(err)
+	}
+	results := make([]VerifResult, len(cases))
+	for i, c := range cases {
+		results[i] = verifRunOne(c)
+	}
+	b, _ := json.Marshal(results)
+	if err := os.WriteFile(out, b, 0o644); err != nil {
+		t.Fatal(err)
+	}
+}
+
+func verifRunOne(c VerifCase) (res VerifResult) {
+	db, mock, err := sqlmock.New(sqlmock.QueryMatcherOption(sqlmock.QueryMatcherFunc(func(string, string) error { return nil })))
+	if err != nil {
+		return VerifResult{Err: "sqlmock: " + err.Error()}
+	}
+	defer db.Close()
+	mock.MatchExpectationsInOrder(false)
+	for k := 0; k < 8; k++ {
+		mock.ExpectExec("x").WillReturnResult(sqlmock.NewResult(1, 1))
+		mock.ExpectQuery("x").WillReturnRows(sqlmock.NewRows([]string{"time", "metric_name", "value"}))
+	}
+	var iface common.KatibDBInterface
+	if c.Dialect == "postgres" {
+		iface = postgres.NewWithDBForVerif(db)
+	} else {
+		iface = mysql.NewWithDBForVerif(db)
+	}
+	dbIf = iface
+	s := &server{}
+	defer func() {
+		if r := recover(); r != nil {
+			res = VerifResult{Panic: fmt.Sprint(r)}
+		}
+	}()
+	switch c.Op {
+	case "report":
+		req := c.Report
+		if req != nil && req.ObservationLog != nil {
+			for _, i := range c.NilMetric {
+				if i >= 0 && i < len(req.ObservationLog.MetricLogs) && req.ObservationLog.MetricLogs[i] != nil {
+					req.ObservationLog.MetricLogs[i].Metric = nil
+				}
+			}
+			for _, i := range c.NilEntries {
+				if i >= 0 && i < len(req.ObservationLog.MetricLogs) {
+					req.ObservationLog.MetricLogs[i] = nil
+				}
+			}
+		}
+		_, err = s.ReportObservationLog(context.Background(), req)
+	case "get":
+		_, err = s.GetObservationLog(context.Background(), c.Get)
+	case "delete":
+		_, err = s.DeleteObservationLog(context.Background(), c.Delete)
+	default:
+		return VerifResult{Err: "unknown op"}
+	}
+	if err != nil {
+		return VerifResult{Err: err.Error()}
+	}
+	return VerifResult{OK: true}
+}
